@@ -36,6 +36,17 @@ APIS = {"read": 0, "read_n": 1, "read1_n": 2, "stream": 3, "read_chunked": 4, "d
 
 def build(case):
     """(head, body bytes as delivered, complete_point, size_line_spans) — body after the fault was applied"""
+    if case.get("empty_encoded"):
+        # a response without a body that names a content coding: HEAD (any Content-Length), 304, 204, Content-Length: 0
+        kind = case["empty_encoded"]
+        hdrs = [("Content-Encoding", c12.header_coding(case["coding"]))]
+        status = {"head": 200, "304": 304, "204": 204, "cl0": 200}[kind]
+        if kind == "head":
+            hdrs.append(("Content-Length", "10"))
+        elif kind == "cl0":
+            hdrs.append(("Content-Length", "0"))
+        head = ("HTTP/1.1 %d X\r\n" % status + "".join("%s: %s\r\n" % kv for kv in hdrs) + "\r\n").encode()
+        return b"", head, b"", 0, [], False
     if case["fault"][0] == "zcut":
         raw, head, body = c12.wire_of(case, raw=c12.compress(case["coding"], case["payload"])[:case["fault"][1]])
     else:
@@ -70,6 +81,8 @@ def build(case):
 
 
 def in_model_domain(case):
+    if case.get("empty_encoded"):
+        return False               # no body at all: judged by the oracle (an intact response is read back, here as b"")
     if case.get("keepalive"):
         return False               # the model reads up to EOF; a server that keeps the connection open is judged by the oracle
     if case["decode"] and case["coding"] != "identity":
@@ -154,15 +167,16 @@ def impl(case):
     end = 0
     dc = case["decode"]
     api, arg = case["api"][0], case["api"][1]
+    method = "HEAD" if case.get("empty_encoded") == "head" else "GET"
     with installed(net):
         pool = HTTPConnectionPool("h.example", 80, maxsize=1)
         r = None
         try:
             if api == "data":
-                r = pool.urlopen("GET", "/", preload_content=True, decode_content=dc, retries=False)
+                r = pool.urlopen(method, "/", preload_content=True, decode_content=dc, retries=False)
                 got += r.data
             else:
-                r = pool.urlopen("GET", "/", preload_content=False, decode_content=dc, retries=False)
+                r = pool.urlopen(method, "/", preload_content=False, decode_content=dc, retries=False)
                 if api == "read":
                     got += r.read(decode_content=dc)
                 elif api == "read_n":
@@ -261,10 +275,16 @@ def oracle(case, obs):
     raw, head, body, complete, spans, eof = build(case)
     f = case["fault"]
     want = case["payload"] if case["decode"] else raw
+    if case.get("empty_encoded"):
+        if end != 0 or got != b"":
+            return "a complete response without a body (%s, Content-Encoding: %s) was not read back as empty (end %d, %d bytes)" % (
+                case["empty_encoded"], case["coding"], end, len(got))
+        return None
     if f[0] == "zcut":
         # the framing is intact; the content coding is what is cut
         full = c12.compress(case["coding"], case["payload"])
-        if end == 0 and case["decode"] and case["coding"] == "zstd" and f[1] < len(full):
+        # (with not one byte of the stream the response is a complete one without a body)
+        if end == 0 and case["decode"] and case["coding"] == "zstd" and 0 < f[1] < len(full):
             return "the zstd stream is incomplete (%d of %d bytes inside complete framing) but reading ended normally with %d bytes" % (f[1], len(full), len(got))
         if end == 0 and not case["decode"] and got != raw:
             return "an intact (undecoded) body was not read back"
@@ -279,7 +299,7 @@ def oracle(case, obs):
     if f[0] == "cut":
         if complete is not None and f[1] < complete:
             must_raise = "the body was cut after %d of %d framed bytes" % (f[1], len(c12.wire_of(case)[2]))
-        elif complete is None and case["decode"] and case["coding"] == "zstd" and f[1] < len(raw):
+        elif complete is None and case["decode"] and case["coding"] == "zstd" and 0 < f[1] < len(raw):
             must_raise = "the zstd stream is incomplete"
     else:
         pos = f[1]
@@ -362,6 +382,15 @@ def cases(rng, tier):
                 if a[0] == "read_chunked" and b["framing"] != "chunked":
                     continue
                 out.append(dict(b, api=list(a), fault=["cut", k]))
+    # responses without a body that name a content coding x every API: nothing to decode, nothing incomplete
+    for kind in ("head", "304", "204", "cl0"):
+        for coding in ("gzip", "deflate", "zstd"):
+            for dc in (True, False):
+                for a in apis():
+                    if a[0] == "read_chunked":
+                        continue
+                    out.append({"payload": b"", "coding": coding, "framing": "len", "chunks": [1], "ext": False, "segs": [10000], "decode": dc,
+                                "api": list(a), "fault": ["none"], "empty_encoded": kind})
     # a zstd stream stopping at every position inside complete framing x every API
     for _ in range(2 if tier == "quick" else 12):
         b = base_case(rng, rng.choice(["len", "chunked", "eof"]))
